@@ -276,7 +276,10 @@ func checkC19(c *Check) {
 		for _, r := range successReturns(vdg) {
 			okr := false
 			for _, a := range factsAt(r.Block()) {
-				if a.Op == "neq" && Sym(a.X) == "builtin.len(p:gspecs)" && Sym(a.Y) == "0" {
+				if Sym(a.X) == "builtin.len(p:gspecs)" && ((a.Op == "neq" && Sym(a.Y) == "0") || (a.Op == ">" && Sym(a.Y) == "0") || (a.Op == ">=" && Sym(a.Y) == "1")) {
+					okr = true
+				}
+				if Sym(a.Y) == "builtin.len(p:gspecs)" && ((a.Op == "neq" && Sym(a.X) == "0") || (a.Op == "<" && Sym(a.X) == "0") || (a.Op == "<=" && Sym(a.X) == "1")) {
 					okr = true
 				}
 			}
